@@ -82,7 +82,7 @@ pub fn scenario(seed: u64, idx: u64) -> Scenario {
     entries.push(Entry { path: format!("{}/d/up.txt", root), kind: EntryKind::Symlink("../a.txt".into()) });
     entries.push(Entry { path: format!("{}/d/e/upup.txt", root), kind: EntryKind::Symlink("../../a.txt".into()) });
     entries.push(Entry { path: format!("{}/d/e/side.html", root), kind: EntryKind::Symlink("../index.html".into()) });
-    sc.tree = TreeSpec { root, entries, mtime_mode: 0 };
+    sc.tree = TreeSpec { root, entries, mtime_mode: 0, meta_mode: (idx % 4) as u8 };
 
     let n = rng.range(2, 8);
     // a third of the runs serve their connections four at a time, with every stage hook on: a climbing
